@@ -24,6 +24,8 @@ ROUNDTRIP = re.compile(r"^(bitpacked\.roundtrip\[|hybrid\.header_roundtrip|dict_
 def _function_of(name):
     if name.startswith("encode_dict"):
         return "writer.encode_dict"
+    if name.startswith("make_definitions"):
+        return "writer.make_definitions"
     if ROUNDTRIP.search(name):
         return "cencoding.encode_bitpacked" if name.startswith(("bitpacked.", "hybrid.")) else \
             "writer.encode_dict" if name.startswith("dict_index") else "cencoding.write_bitpacked1"
@@ -38,6 +40,7 @@ def p_encoders(ctx):
         from vc.front_py import parse_module
         wf, _, _ = parse_module("fastparquet/writer.py")
         ctx.function("writer.encode_dict", wf["encode_dict"].sha, wf["encode_dict"].report)
+        ctx.function("writer.make_definitions", wf["make_definitions"].sha, wf["make_definitions"].report)
     except Exception:
         pass
     for a in E.ASSUMED:
